@@ -8,6 +8,9 @@ CLAIMED = {
  "C10": dict(text="General Coq theorem (any registry): the left-to-right scan of get_closest_match returns the unique least signature under every permutation; for the registry regenerated from the live ka.functions on every run, computed-and-lifted theorems: every (name, kind tuple) up to the largest arity+1 has a unique least applicable signature, resolution is order-independent for kind tuples of ANY length, no numeric narrowing, and dispatch selects a body only after name, signature and keyword validation. Correspondence: the live lookup/closest-match/dispatch on all 2.1M (name, kind-tuple) cases vs the model in the Coq VM, plus permutation runs on the live objects.",
              note="Trusted: Coq kernel; translator (live dump of registry + isinstance/issubclass tables, one representative value per class); function bodies identified by registry index, not modelled here.",
              technique="Coq proof (induction on the scan + vm_compute reflection over the regenerated registry, lifted by forallb_forall) + exhaustive differential correspondence", ref="6/C10"),
+ "C05": dict(text="Coq theorem by induction over all trees of n!, C(n,k), integers, * / (any nesting) and + - comparisons / numeric functions at the boundary: resolving the lazy evaluation equals eager big-integer/rational evaluation, value or error (C05_value), built from proved lemmas for IntRange.difference (all overlap cases), the cancellation loop of Combinatoric.mul (value preserved, terminates within the computed fuel), resolve(), the zero-factor rule, and C(n,k) = Pascal binomial. Correspondence: exhaustive range pairs (endpoints 1..7), atom products/quotients and seeded random trees through execute(), also tagged with a unit, inside an array and via a variable.",
+             note="Trusted: Coq kernel; Python int/Fraction arithmetic modelled via Num.v; ranges assumed zero-free (proved to be an invariant of every value the evaluator builds); harness generators.",
+             technique="Coq proof (induction over trees; loop invariants for the cancellation and resolve loops; termination measure) + kernel-lane differential correspondence", ref="6/C05"),
 }
 PENDING = {}
 ALL = ["C%02d" % i for i in range(1, 21)]
